@@ -668,6 +668,17 @@ func TestProp(t *testing.T) {
 			}
 		}
 	}
+	// a younger authenticator accepted first, an older one of the same client afterwards; the older one leaves the window,
+	// the clean-up runs, the younger one - still inside - comes again
+	for _, xo := range []int64{0, 100000} {
+		for _, yo := range []int64{-300000, -250000} {
+			for _, svc := range []int{0, 1} {
+				sl := 400 + int(yo/1000) + 100 // the older one is then 100 ms outside, the younger one at most 300 ms old
+				timed = append(timed, Case{Mode: "timed", SkewMs: 400, TOffUs: []int64{xo, yo}, Names: int(xo/100000) + svc,
+					Pre: []Op{{K: "present", C: 0, T: 0, S: 0}, {K: "present", C: 0, T: 1, S: svc}, {K: "sleep", Ms: sl}, {K: "cleanup"}, {K: "present", C: 0, T: 0, S: 0}, {K: "present", C: 0, T: 0, S: 0}}})
+			}
+		}
+	}
 	evid.Parallel(len(timed), 48, func(i int) {
 		c := timed[i]
 		r.Count(ntKey(c)+fmt.Sprint(i), "mode:timed", fmt.Sprintf("ctime-offset-us:%d", c.TOffUs[0]))
